@@ -612,6 +612,32 @@ _s("root_magnitudes", r"""
         std::printf("root_magnitudes_q %.17g [%s] %.17g\n", sqrt(squared(seconds)(2.25)).in(seconds), unit_label(sqrt(kilo(seconds))), sqrt(kilo(seconds)(4.0)).in(sqrt(seconds)));
 """)
 
+_s("sfinae_traits", r"""
+        using QS = Quantity<Seconds, int>;
+        using QR = Quantity<Radians, int>;
+        using QD = Quantity<Minutes, double>;
+        using PS = QuantityPoint<Seconds, int>;
+        std::printf("sfinae_traits lt %d %d %d | eq %d %d %d | add %d %d %d | sub %d %d %d | pts %d %d %d %d\n",
+                    int(probe_can_lt<QS, QD>::value), int(probe_can_lt<QS, QR>::value), int(probe_can_lt<QS, int>::value),
+                    int(probe_can_eq<QS, QD>::value), int(probe_can_eq<QS, QR>::value), int(probe_can_eq<QS, int>::value),
+                    int(probe_can_add<QS, QD>::value), 2, int(probe_can_add<QS, int>::value),
+                    int(probe_can_sub<QS, QD>::value), 2, int(probe_can_sub<QS, int>::value),
+                    int(probe_can_add<PS, PS>::value), int(probe_can_sub<PS, PS>::value), int(probe_can_add<PS, QS>::value), int(probe_can_lt<PS, QS>::value));
+""", defs="""template <typename...>
+using probe_void_t = void;
+#define PROBE_TRAIT(NAME, EXPR)                                                                     \\
+    template <typename A, typename B, typename = void>                                                \\
+    struct NAME : std::false_type {};                                                                  \\
+    template <typename A, typename B>                                                                  \\
+    struct NAME<A, B, probe_void_t<decltype(EXPR)>> : std::true_type {};
+PROBE_TRAIT(probe_can_lt, std::declval<A>() < std::declval<B>())
+PROBE_TRAIT(probe_can_eq, std::declval<A>() == std::declval<B>())
+PROBE_TRAIT(probe_can_add, std::declval<A>() + std::declval<B>())
+PROBE_TRAIT(probe_can_sub, std::declval<A>() - std::declval<B>())
+#undef PROBE_TRAIT
+#include <utility>
+""")
+
 def names():
     return sorted(SNIPPETS)
 
